@@ -932,3 +932,144 @@ Proof.
   apply (gwalk_all kgt kgt_irrefl kgt_trans kgt_total (rev db) (rev pend) skip
            (rev_gsorted _ Sd) (rev_gsorted _ Sp) Hs' n).
 Qed.
+
+(* ================================================================ nested buckets, as far as it goes
+   A bucket is the prefix slice [under id (view t)] of the merged map.  Writes
+   under one prefix are put/delete on that slice and leave every slice under a
+   prefix that does not match the written key untouched; bucket ids of equal
+   length are such prefixes, and so are the bucket-index prefixes "bidx"<id>
+   for ids that do not start with 'b'. *)
+
+Lemma get_under p (m : kvs) x : sorted m -> OMap.get (under p m) x = OMap.get m (p ++ x).
+Proof.
+  intros S. pose proof (under_sorted p m S) as Su.
+  destruct (OMap.get m (p ++ x)) as [v|] eqn:G.
+  - apply in_get; auto. apply under_in. apply get_in; auto.
+  - destruct (OMap.get (under p m) x) as [v|] eqn:G'; auto.
+    apply get_in in G'. apply under_in in G'. apply (in_get m) in G'; auto. congruence.
+Qed.
+
+Lemma strip_prefix_app p k : strip_prefix p (p ++ k) = Some k.
+Proof. apply strip_prefix_spec. auto. Qed.
+
+Lemma under_put_same p (m : kvs) k v : sorted m ->
+  under p (OMap.put m (p ++ k) v) = OMap.put (under p m) k v.
+Proof.
+  intros S. apply sorted_ext.
+  - apply under_sorted, put_sorted; auto.
+  - apply put_sorted, under_sorted; auto.
+  - intros x. rewrite get_under by (apply put_sorted; auto).
+    destruct (keqb x k) eqn:E.
+    + apply keqb_eq in E. subst x. rewrite !get_put_same. auto.
+    + assert (N : x <> k) by (intros ->; rewrite keqb_refl in E; discriminate).
+      rewrite !get_put_other; auto.
+      * symmetry. apply get_under; auto.
+      * intros H. apply app_inv_head in H. auto.
+Qed.
+
+Lemma under_del_same p (m : kvs) k : sorted m ->
+  under p (OMap.del m (p ++ k)) = OMap.del (under p m) k.
+Proof.
+  intros S. apply sorted_ext.
+  - apply under_sorted, del_sorted; auto.
+  - apply del_sorted, under_sorted; auto.
+  - intros x. rewrite get_under by (apply del_sorted; auto).
+    destruct (keqb x k) eqn:E.
+    + apply keqb_eq in E. subst x. rewrite !get_del_same. auto.
+    + assert (N : x <> k) by (intros ->; rewrite keqb_refl in E; discriminate).
+      rewrite !get_del_other; auto.
+      * symmetry. apply get_under; auto.
+      * intros H. apply app_inv_head in H. auto.
+Qed.
+
+Lemma under_put_other p (m : kvs) key v : sorted m -> strip_prefix p key = None ->
+  under p (OMap.put m key v) = under p m.
+Proof.
+  intros S N. apply sorted_ext.
+  - apply under_sorted, put_sorted; auto.
+  - apply under_sorted; auto.
+  - intros x. rewrite !get_under by (auto; apply put_sorted; auto).
+    apply get_put_other. intros H. rewrite <- H, strip_prefix_app in N. discriminate.
+Qed.
+
+Lemma under_del_other p (m : kvs) key : sorted m -> strip_prefix p key = None ->
+  under p (OMap.del m key) = under p m.
+Proof.
+  intros S N. apply sorted_ext.
+  - apply under_sorted, del_sorted; auto.
+  - apply under_sorted; auto.
+  - intros x. rewrite !get_under by (auto; apply del_sorted; auto).
+    apply get_del_other. intros H. rewrite <- H, strip_prefix_app in N. discriminate.
+Qed.
+
+(* prefixes that cannot match *)
+Lemma ids_disjoint id : forall id' k, length id = length id' -> id <> id' ->
+  strip_prefix id' (id ++ k) = None.
+Proof.
+  induction id as [|a id IH]; intros [|b id'] k L N; simpl in *; try discriminate; [congruence|].
+  destruct (Z.eqb_spec b a) as [->|]; auto. apply IH; [lia|congruence].
+Qed.
+
+Lemma first_byte_disjoint a p b key : a <> b -> strip_prefix (a :: p) (b :: key) = None.
+Proof. intros N. simpl. destruct (Z.eqb_spec a b); auto. contradiction. Qed.
+
+(* Put / Delete in bucket [id]: put / delete on the bucket's own listing, no
+   effect on any listing whose prefix does not match the written raw key *)
+Theorem bucket_write_refines t id k v : tx_ok t -> t_w t = true ->
+  bucket_keys (put_key t (bucketized id k) v) id = OMap.put (bucket_keys t id) k v /\
+  bucket_keys (delete_key t (bucketized id k)) id = OMap.del (bucket_keys t id) k /\
+  (forall p, strip_prefix p (bucketized id k) = None ->
+     under p (view (put_key t (bucketized id k) v)) = under p (view t) /\
+     under p (view (delete_key t (bucketized id k))) = under p (view t)).
+Proof.
+  intros T W. pose proof (view_sorted t T) as S. unfold bucket_keys, bucketized.
+  rewrite view_put_key, view_delete_key by auto.
+  repeat split.
+  - apply under_put_same; auto.
+  - apply under_del_same; auto.
+  - apply under_put_other; auto.
+  - apply under_del_other; auto.
+Qed.
+
+Theorem bucket_isolation id id' k a q :
+  (length id = length id' -> id <> id' -> strip_prefix id' (bucketized id k) = None) /\
+  (a <> 98 -> strip_prefix (bidx ++ q) (bucketized (a :: id) k) = None).
+Proof.
+  split.
+  - apply ids_disjoint.
+  - intros N. unfold bidx, bucketized. simpl app. apply first_byte_disjoint. auto.
+Qed.
+
+(* CreateBucket as an operation on listings: one new entry in the parent's
+   bucket index (name -> the next id), every key listing and every other
+   index listing unchanged.  (That the new id is fresh -- no key already lives
+   under it -- is an invariant of whole histories and is checked by the
+   correspondence, not proved here.) *)
+Theorem create_bucket_refines t id n t' : tx_ok t -> b_create t id n = (t', E_OK) ->
+  strip_prefix (bidx ++ id) cbid_key = None ->
+  exists nid,
+    bucket_subs t' id = OMap.put (bucket_subs t id) n nid /\
+    fetch t' cbid_key = Some nid /\
+    (forall p, strip_prefix p cbid_key = None -> strip_prefix p (bidx_key id n) = None ->
+       under p (view t') = under p (view t)).
+Proof.
+  intros T. unfold b_create.
+  destruct (t_w t) eqn:W; cbn [negb]; [|discriminate].
+  destruct (is_nil n); [discriminate|].
+  destruct (has_key t (bidx_key id n)); [discriminate|].
+  set (nid := be32_enc (match fetch t cbid_key with Some v => be32_dec v | None => 0 end + 1)).
+  intros [= <-] Hc. exists nid.
+  assert (T1 : tx_ok (put_key t cbid_key nid)) by (apply put_key_ok; auto).
+  assert (W1 : t_w (put_key t cbid_key nid) = true) by auto.
+  pose proof (view_sorted t T) as S. pose proof (view_sorted _ T1) as S1.
+  repeat split.
+  - unfold bucket_subs. rewrite view_put_key by auto. unfold bidx_key. rewrite app_assoc.
+    rewrite under_put_same by auto. rewrite view_put_key by auto.
+    rewrite under_put_other by auto. auto.
+  - rewrite read_through_layers by (apply put_key_ok; auto).
+    rewrite view_put_key by auto. rewrite get_put_other.
+    + rewrite view_put_key by auto. apply get_put_same.
+    + intros H. unfold bidx_key in H. rewrite H, app_assoc, strip_prefix_app in Hc. discriminate.
+  - intros p H1 H2. rewrite view_put_key by auto. rewrite under_put_other by auto.
+    rewrite view_put_key by auto. apply under_put_other; auto.
+Qed.
